@@ -3,6 +3,9 @@ package main
 import (
 	"fmt"
 	"os"
+
+	"ddpmc/internal/fe"
+	"ddpmc/internal/pool"
 )
 
 var workers = map[string]func(args []string){}
@@ -17,4 +20,8 @@ func workerMain(args []string) {
 	}
 	fmt.Fprintln(os.Stderr, "unknown worker", args[0])
 	os.Exit(2)
+}
+
+func init() {
+	workers["fe"] = func([]string) { pool.Serve(func(q *fe.Req) fe.Resp { return fe.Handle(q) }) }
 }
